@@ -900,8 +900,21 @@ impl CxxCodeBodyTranslator {
                             .chain(formatted_args)
                             .join(" << ")
                     }
-                    BuiltinFunctionKind::Max => format!("std::max({})", formatted_args.join(", ")),
-                    BuiltinFunctionKind::Min => format!("std::min({})", formatted_args.join(", ")),
+                    BuiltinFunctionKind::Max | BuiltinFunctionKind::Min => {
+                        let name = if *f == BuiltinFunctionKind::Max {
+                            "max"
+                        } else {
+                            "min"
+                        };
+                        // integer literal is of int type, which can't be deduced as uint
+                        let is_uint = args.iter().any(|a| a.type_desc() == TypeDesc::UINT);
+                        let is_literal = |a: &tir::Operand| a.type_desc() == TypeDesc::ConstInteger;
+                        if is_uint && args.iter().any(is_literal) {
+                            format!("std::{name}<uint>({})", formatted_args.join(", "))
+                        } else {
+                            format!("std::{name}({})", formatted_args.join(", "))
+                        }
+                    }
                     BuiltinFunctionKind::Tr => format!(
                         "QCoreApplication::translate({context}, {args})",
                         context = format_string_literal(&self.tr_context),
